@@ -3,6 +3,7 @@ package props
 import (
 	"encoding/json"
 	"fmt"
+	"sync"
 	"testing"
 
 	"github.com/alecthomas/participle/v2/lexer"
@@ -31,6 +32,26 @@ type c12Case struct {
 	Toks  []c12Tok `json:"toks"`
 	Elide []int    `json:"elide"`
 	Ops   []c12Op  `json:"ops"`
+	// LongRun > 0: the stream starts with, and has after its first LongAt tokens, a run of LongRun tokens of the type
+	// Elide[0] (kept out of Toks so that the replay file stays small)
+	LongRun int `json:"long_run,omitempty"`
+	LongAt  int `json:"long_at,omitempty"`
+}
+
+// expanded is the token list with the long elided run inserted.
+func (c *c12Case) expanded() []c12Tok {
+	if c.LongRun <= 0 || len(c.Elide) == 0 {
+		return c.Toks
+	}
+	at := c.LongAt
+	if at > len(c.Toks) {
+		at = len(c.Toks)
+	}
+	out := append([]c12Tok(nil), c.Toks[:at]...)
+	for i := 0; i < c.LongRun; i++ {
+		out = append(out, c12Tok{Type: c.Elide[0], Value: " "})
+	}
+	return append(out, c.Toks[at:]...)
 }
 
 type sliceLexer struct {
@@ -64,7 +85,7 @@ type c12State struct {
 func newC12State(c *c12Case) (*c12State, string) {
 	s := &c12State{elided: map[lexer.TokenType]bool{}}
 	off := 0
-	for _, t := range c.Toks {
+	for _, t := range c.expanded() {
 		s.toks = append(s.toks, lexer.Token{Type: lexer.TokenType(t.Type), Value: t.Value,
 			Pos: lexer.Position{Filename: "f", Offset: off, Line: 1, Column: off + 1}})
 		off += len(t.Value) + 1
@@ -302,7 +323,21 @@ func genC12Op(t *rapid.T, name string) c12Op {
 }
 
 func TestC12(t *testing.T) {
+	var longOnce sync.Once
 	runProp(t, "C12", c12Rule, func(t *rapid.T, r *vstat.Run) {
+		longOnce.Do(func() {
+			// runs of elided tokens longer than any 16-bit quantity (a comment block of tens of thousands of lines)
+			for _, n := range []int{65535, 65536, 70000, 131073} {
+				for _, at := range []int{0, 2} {
+					c := &c12Case{Toks: []c12Tok{{1, "a"}, {3, "b"}, {1, "c"}}, Elide: []int{2}, LongRun: n, LongAt: at,
+						Ops: []c12Op{{Op: "Peek", Obs: 15}, {Op: "Next", Obs: 15}, {Op: "Next", Obs: 15}, {Op: "Peek", Obs: 15}, {Op: "Next", Obs: 15}, {Op: "Next", Obs: 15}, {Op: "Peek", Obs: 15}}}
+					o, _ := runC12Case(c)
+					r.Eval()
+					r.Count("long_elided_run_cases")
+					report(t, r, o, c)
+				}
+			}
+		})
 		c := &c12Case{}
 		n := rapid.IntRange(0, 30).Draw(t, "ntoks")
 		for i := 0; i < n; i++ {
